@@ -27,6 +27,7 @@ func (P) Rule() string {
 	return "merkle: every (total, index) for totals 1..70 (thorough ..300) with honest and single-mutation proofs (leaf, index, one aunt, dropped/extra aunt, total); " +
 		"part sets: random data/part sizes, arrival = permutation with duplicates and interleaved forgeries (flipped/truncated bytes, shifted index, tampered/short/long proof, index>=total, negative index), assemble at intermediate and final points; " +
 		"blocks: proposer-style blocks (0..6 txs, 0..3 evidence, 1..5 commit slots) with every single-field perturbation of the 18 header fields, tx content/order/count, evidence, last-commit slots, with and without re-filling the content hashes; " +
+		"widened API streams (wide.go): reflection sweep over every leaf of types.Header, header copies, block/commit/BlockID API and Commit.ValidateBasic rejections, part-set queries incl. nil receivers, PartSetReader with arbitrary buffer sizes over part sets with empty parts, Txs.IndexByHash/TxProof.Validate, three transaction kinds and two evidence kinds in the identity, SimpleHashFromMap/SimpleProofsFromMap, blockchain.BlockStore save/load of 13+ blocks with 13+ parts each; " +
 		"non-trivial = a part-set case with >=2 parts and >=1 forgery that still completes, a merkle sweep with total>=2, a block case with >=1 tx and all perturbations; distinct = distinct op sequence"
 }
 
@@ -84,7 +85,7 @@ func idNum(s string) int {
 func txsOf(ids []string) types.Txs {
 	txs := make(types.Txs, 0, len(ids))
 	for _, id := range ids {
-		txs = append(txs, mkTx(idNum(id)))
+		txs = append(txs, mkTxID(id))
 	}
 	return txs
 }
@@ -92,7 +93,7 @@ func txsOf(ids []string) types.Txs {
 func evsOf(ids []string) types.EvidenceList {
 	var evs types.EvidenceList
 	for _, id := range ids {
-		evs = append(evs, mkEv(idNum(id)))
+		evs = append(evs, mkEvID(id))
 	}
 	return evs
 }
@@ -103,7 +104,7 @@ func votesOf(ids []string) []*types.Vote {
 		if id == "nil" {
 			vs = append(vs, nil)
 		} else {
-			vs = append(vs, mkVote(idNum(id)))
+			vs = append(vs, mkVoteID(id))
 		}
 	}
 	return vs
@@ -241,6 +242,7 @@ type bytesHasher []byte
 func (b bytesHasher) Hash() []byte { return b }
 
 type exec struct {
+	wide    wideState
 	leaves  [][]byte
 	proofs  []*merkle.SimpleProof
 	src, ps *types.PartSet
@@ -430,7 +432,7 @@ func (e *exec) Exec(op string) string {
 		}
 		return fmt.Sprintf("hash=%s pclass=%d valid=%s rt=%v", hx.Hex(h[:]), k, valid, rt)
 	}
-	return "bad-op"
+	return e.execWide(toks)
 }
 
 // ---- monitors --------------------------------------------------------------------------------------
@@ -452,6 +454,7 @@ func (P) Monitor(c *hx.CaseRun) []hx.Failure {
 	var base []string          // tokens of the first block op
 	var baseAns string
 	seenBlocks := map[string]string{}
+	fs = append(fs, monitorWide(c)...)
 	for i, op := range c.Ops {
 		ans := c.Impl[i]
 		toks := hx.Tokens(op)
@@ -991,4 +994,5 @@ func (P) Generate(g *hx.Gen) {
 	for n := 0; n <= g.Pick(9, 40); n++ {
 		genRoots(g, n)
 	}
+	generateWide(g)
 }
